@@ -9,7 +9,7 @@ package pool
 
 // registryInv: every registered host id points at a connection the reverse lookup knows
 //@ pure registryInv(p *VipnodePool) bool = p.remoteHosts != nil && p.remoteNodeLookup != nil
-//@      && (forall id store.NodeID :: has(p.remoteHosts, id) ==> has(p.remoteNodeLookup, p.remoteHosts[id]))
+//@      && (forall id store.NodeID :: has(p.remoteHosts, id) ==> p.remoteHosts[id] != nil && has(p.remoteNodeLookup, p.remoteHosts[id]))
 
 // verifiedX(a, r): the variadic argument list a that was signed consists of exactly the request r
 //@ pure verifiedConnect(a []interface{}, r ConnectRequest) bool = len(a) == 1 && typeis(a[0], ConnectRequest) && a[0].(ConnectRequest) == r
@@ -33,60 +33,166 @@ package pool
 //@ ensures [one-effect] err == nil ==> effects == old(effects) + 1
 //@ modifies authOK, authMethod, authID, authNonce, authArgs, nonceOK, nonceID, nonceVal, p.Store.nonce, effects
 
+// connect: a full node is registered under its authenticated id on the connection the request arrived on (the service
+// in the request context), nothing else in the registry moves, and the node record that is stored (and later handed to
+// clients) carries that id and, for a host, an address made by normalizeNodeURI from what the host said and where it
+// connected from.
 //@ func (*VipnodePool).connect
-//@ property C04 C06 C09
+//@ property C04 C06 C09 C10 C15 C19
+//@ safety on
 //@ requires authOK && authID == nodeID && nonceOK && nonceID == nodeID
-//@ requires !held(p.mu)
+//@ requires !held(p.mu) && registryInv(p)
 //@ ensures [errkind] !typeis(err, VerifyFailedError)
-//@ ensures [unlocked] !held(p.mu)
+//@ ensures [unlocked] {C09 C10} !held(p.mu)
 //@ ensures [effects] effects >= old(effects)
-//@ modifies effects, p.remoteHosts, p.remoteNodeLookup, p.Store.reg, p.Store.node
+//@ ensures [inv] {C09 C15} registryInv(p)
+//@ ensures [host-registered-on-its-connection] {C09} err == nil && req.NodeInfo.IsFullNode ==>
+//@        has(p.remoteHosts, store.NodeID(nodeID)) && p.remoteHosts[store.NodeID(nodeID)] == ctxget(ctx, jsonrpc2.ctxService)
+//@        && has(p.remoteNodeLookup, p.remoteHosts[store.NodeID(nodeID)]) && p.remoteNodeLookup[p.remoteHosts[store.NodeID(nodeID)]] == store.NodeID(nodeID)
+//@ ensures [other-hosts-kept] {C09} forall id store.NodeID :: id != store.NodeID(nodeID) ==>
+//@        has(p.remoteHosts, id) == old(has(p.remoteHosts, id)) && p.remoteHosts[id] == old(p.remoteHosts[id])
+//@ ensures [clients-register-nothing] {C09} !req.NodeInfo.IsFullNode ==>
+//@        (forall id store.NodeID :: has(p.remoteHosts, id) == old(has(p.remoteHosts, id)) && p.remoteHosts[id] == old(p.remoteHosts[id]))
+//@ ensures [stored-under-own-id] {C19} err == nil ==> p.Store.reg[store.NodeID(nodeID)] && p.Store.node[store.NodeID(nodeID)].ID == store.NodeID(nodeID)
+//@        && p.Store.node[store.NodeID(nodeID)].IsHost == req.NodeInfo.IsFullNode
+//@ ensures [advertised-address] {C19} err == nil && req.NodeInfo.IsFullNode ==>
+//@        uriScheme(p.Store.node[store.NodeID(nodeID)].URI) == "enode" && uriUser(p.Store.node[store.NodeID(nodeID)].URI) == nodeID
+//@        && splitOK(uriHost(p.Store.node[store.NodeID(nodeID)].URI))
+//@        && (suppliedHost(req.NodeURI) != "" ==> splitHost(uriHost(p.Store.node[store.NodeID(nodeID)].URI)) == suppliedHost(req.NodeURI))
+//@        && splitPort(uriHost(p.Store.node[store.NodeID(nodeID)].URI)) == wantPort(req.NodeURI, "30303")
+//@        && splitHost(uriHost(p.Store.node[store.NodeID(nodeID)].URI)) != ""
+//@ ensures [other-records-kept] {C19} forall id store.NodeID :: id != store.NodeID(nodeID) ==> p.Store.node[id] == old(p.Store.node[id]) && p.Store.reg[id] == old(p.Store.reg[id])
+//@ modifies effects, p.remoteHosts, p.remoteNodeLookup, p.Store.reg, p.Store.node, clock
+
+// disconnectPeers (the low-balance cut-off fan-out): for every peer of the client that has a registered connection one
+// goroutine is started on exactly that connection (captured variable 1 = remote), each asks "vipnode_disconnect" for this
+// client (closure contract below), and all their results are collected before returning. The starts are counted in the
+// ghost spawn log of go statement 0; a host that fails does not stop the others from being asked.
+//@ func (*VipnodePool).disconnectPeers
+//@ property C03 C09 C10 C15
+//@ safety on
+//@ requires !held(p.mu) && registryInv(p)
+//@ ensures [unlocked] {C03 C10} !held(p.mu)
+//@ ensures [every-connected-host-asked] {C03} forall q int :: off(peers) <= q && q < off(peers) + len(peers) && has(p.remoteHosts, elems(peers)[q].ID) ==>
+//@        (exists k int :: 0 <= k && k < spawncount(0) && spawnarg(0, 1)[k] == p.remoteHosts[elems(peers)[q].ID])
+//@ ensures [asked-for-this-client] {C03} forall k int :: 0 <= k && k < spawncount(0) ==> spawnarg(0, 3)[k] == nodeID
+//@ ensures [only-registered-connections] {C09} forall k int :: 0 <= k && k < spawncount(0) ==> spawnarg(0, 1)[k] != nil
+//@        && (exists q int :: off(peers) <= q && q < off(peers) + len(peers) && has(p.remoteHosts, elems(peers)[q].ID) && spawnarg(0, 1)[k] == p.remoteHosts[elems(peers)[q].ID])
+//@ ensures [errkind] !typeis(err, VerifyFailedError) && !typeis(err, balance.LowBalanceError)
+//@ modifies effects, clock, lastCallRecv, lastCallMethod, lastCallParams, lastCallOK
+//@ loop 0 invariant [lock] held(p.mu) && registryInv(p) && count == spawncount(0) && count >= 0
+//@ loop 0 invariant [asked] forall q int :: off(peers) <= q && q < off(peers) + rangeidx && has(p.remoteHosts, elems(peers)[q].ID) ==>
+//@        (exists k int :: 0 <= k && k < spawncount(0) && spawnarg(0, 1)[k] == p.remoteHosts[elems(peers)[q].ID])
+//@ loop 0 invariant [this-client] forall k int :: 0 <= k && k < spawncount(0) ==> spawnarg(0, 3)[k] == nodeID
+//@ loop 0 invariant [registered] forall k int :: 0 <= k && k < spawncount(0) ==> spawnarg(0, 1)[k] != nil
+//@        && (exists q int :: off(peers) <= q && q < off(peers) + len(peers) && has(p.remoteHosts, elems(peers)[q].ID) && spawnarg(0, 1)[k] == p.remoteHosts[elems(peers)[q].ID])
+//@ loop 1 invariant [collect] !held(p.mu) && 0 <= i && count == spawncount(0)
+
+// the goroutine asking one host: exactly one "vipnode_disconnect" call for this client on the captured connection, whose
+// outcome is what it reports
+//@ func (*VipnodePool).disconnectPeers$1
+//@ property C03
+//@ requires remote != nil
+//@ sendreq errCh [outcome-of-asking-this-host] : lastCallMethod == "vipnode_disconnect" && lastCallRecv == ref(remote)
+//@            && len(lastCallParams) == 1 && elems(lastCallParams)[off(lastCallParams)] == box(nodeID) && (sent == nil) == lastCallOK
+
+// requested(p, n): the number of hosts a request is allowed to get: what it asked for, capped by the pool's maximum
+//@ pure requested(p *VipnodePool, n int) int = ite(p.MaxRequestHosts > 0 && n > p.MaxRequestHosts, p.MaxRequestHosts, n)
 
 //@ func (*VipnodePool).requestHosts
-//@ property C04 C06 C08
-//@ trusted body not yet brought under contract (goroutines and select); callers rely on the frame only
+//@ property C04 C06 C08 C10 C15
+//@ safety on
 //@ requires authOK && authID == nodeID && nonceOK && nonceID == nodeID
-//@ ensures [errkind] !typeis(err, VerifyFailedError)
-//@ ensures [effects] effects >= old(effects)
-//@ modifies effects
+//@ requires !held(p.mu) && registryInv(p)
+//@ ensures [errkind]  {C04 C06 C08} !typeis(err, VerifyFailedError)
+//@ ensures [effects]  {C04 C06 C08} effects >= old(effects)
+//@ ensures [unlocked] {C08 C10} !held(p.mu)
+//@ ensures [none-for-zero-or-negative] {C08} requested(p, numRequestHosts) <= 0 ==> err == nil && len(result) == 0 && effects == old(effects)
+//@ ensures [never-more-than-asked]     {C08} err == nil && !p.skipWhitelist ==> len(result) <= requested(p, numRequestHosts) || len(result) == 0
+//@ ensures [error-means-no-hosts]      {C08} err != nil ==> len(result) == 0
+//@ ensures [no-error-with-hosts]       {C08} !p.skipWhitelist && len(result) > 0 ==> err == nil
+//@ ensures [only-eligible-connected-non-peers] {C08} err == nil && !p.skipWhitelist ==> forall q int :: off(result) <= q && q < off(result) + len(result) ==>
+//@        store.inNodes(store.lastActiveHosts, elems(result)[q]) && elems(result)[q].ID != store.NodeID(nodeID) && !store.hasNode(store.lastNodePeers, elems(result)[q].ID)
+//@ recvinv acceptChan [accepted-hosts-were-asked] : exists k int :: 0 <= k && k < spawncount(0) && v == spawnarg(0, 1)[k]
+//@ modifies effects, clock, lastCallRecv, lastCallMethod, lastCallParams, lastCallOK, lastNodePeers, lastActiveHosts
+//@ loop 0 invariant [lock] !held(p.mu)
+//@ loop 0 invariant [skip] has(skipPeers, selfNodeID) && selfNodeID == store.NodeID(nodeID) && peers == store.lastNodePeers
+//@        && (forall k int :: off(peers) <= k && k < off(peers) + rangeidx ==> has(skipPeers, elems(peers)[k].ID))
+//@ loop 1 invariant [lock] held(p.mu) && p.remoteHosts != nil
+//@ loop 1 invariant [skip] has(skipPeers, selfNodeID) && selfNodeID == store.NodeID(nodeID) && peers == store.lastNodePeers && r == store.lastActiveHosts
+//@        && (forall k int :: off(peers) <= k && k < off(peers) + len(peers) ==> has(skipPeers, elems(peers)[k].ID))
+//@ loop 1 invariant [candidates] forall q int :: off(remotes) <= q && q < off(remotes) + len(remotes) ==>
+//@        store.inNodes(r, elems(remotes)[q].Node) && !has(skipPeers, elems(remotes)[q].Node.ID)
+//@ loop 1 invariant [count] len(remotes) <= rangeidx && numRequestHosts > 0 && (len(remotes) < numRequestHosts || rangeidx == 0)
+//@ loop 2 invariant [lock] !held(p.mu) && spawncount(0) == rangeidx && len(remotes) <= numRequestHosts
+//@ loop 2 invariant [asked] forall k int :: 0 <= k && k < spawncount(0) ==> spawnarg(0, 1)[k] == elems(remotes)[off(remotes) + k].Node
+//@ loop 3 invariant [accepted] forall q int :: off(accepted) <= q && q < off(accepted) + len(accepted) ==>
+//@        (exists k int :: 0 <= k && k < spawncount(0) && elems(accepted)[q] == spawnarg(0, 1)[k])
+//@ loop 3 invariant [lock] !held(p.mu) && len(accepted) + len(errors) + i == len(remotes) && i >= 0 && len(remotes) <= numRequestHosts
+
+// the goroutine asking one host to whitelist the requester: it offers the host on acceptChan only after that host's own
+// connection acknowledged "vipnode_whitelist" for the requester's node id, and reports a failure otherwise
+//@ func (*VipnodePool).requestHosts$1
+//@ property C08
+//@ requires service != nil
+//@ sendreq acceptChan [acknowledged-before-offered] : sent == node && lastCallOK && lastCallMethod == "vipnode_whitelist" && lastCallRecv == ref(service)
+//@            && len(lastCallParams) == 1 && elems(lastCallParams)[off(lastCallParams)] == box(nodeID)
+//@ sendreq errChan [failure-reported-as-error] : sent != nil && !lastCallOK
 
 //@ func (*VipnodePool).Connect
-//@ property C04 C06
-//@ requires !authOK && !nonceOK && !held(p.mu)
+//@ property C04 C06 C09
+//@ requires !authOK && !nonceOK && !held(p.mu) && registryInv(p)
+//@ ensures [inv] {C09} registryInv(p)
 //@ ensures [authorised] effects != old(effects) ==> authorised("vipnode_connect", nodeID, nonce) && verifiedConnect(authArgs, req)
 //@ ensures [refused-error]    !(authOK && nonceOK) ==> typeis(err, VerifyFailedError)
 //@ ensures [refused-no-trace] !(authOK && nonceOK) ==> effects == old(effects) && p.Store.nonce == old(p.Store.nonce)
 //@                              && (forall id store.NodeID :: has(p.remoteHosts, id) == old(has(p.remoteHosts, id)) && p.remoteHosts[id] == old(p.remoteHosts[id]))
 
 //@ func (*VipnodePool).Host
-//@ property C04 C06
-//@ requires !authOK && !nonceOK && !held(p.mu)
+//@ property C04 C06 C09
+//@ requires !authOK && !nonceOK && !held(p.mu) && registryInv(p)
+//@ ensures [inv] {C09} registryInv(p)
 //@ ensures [authorised] effects != old(effects) ==> authorised("vipnode_host", nodeID, nonce) && verifiedHost(authArgs, req)
 //@ ensures [refused-error]    !(authOK && nonceOK) ==> typeis(err, VerifyFailedError)
 //@ ensures [refused-no-trace] !(authOK && nonceOK) ==> effects == old(effects) && p.Store.nonce == old(p.Store.nonce)
 //@                              && (forall id store.NodeID :: has(p.remoteHosts, id) == old(has(p.remoteHosts, id)) && p.remoteHosts[id] == old(p.remoteHosts[id]))
 
 //@ func (*VipnodePool).Client
-//@ property C04 C06
-//@ requires !authOK && !nonceOK && !held(p.mu)
+//@ property C04 C06 C09
+//@ requires !authOK && !nonceOK && !held(p.mu) && registryInv(p)
+//@ ensures [inv] {C09} registryInv(p)
 //@ ensures [authorised] effects != old(effects) ==> authorised("vipnode_client", nodeID, nonce) && verifiedClient(authArgs, req)
 //@ ensures [refused-error]    !(authOK && nonceOK) ==> typeis(err, VerifyFailedError)
 //@ ensures [refused-no-trace] !(authOK && nonceOK) ==> effects == old(effects) && p.Store.nonce == old(p.Store.nonce)
 //@                              && (forall id store.NodeID :: has(p.remoteHosts, id) == old(has(p.remoteHosts, id)) && p.remoteHosts[id] == old(p.remoteHosts[id]))
 
 //@ func (*VipnodePool).Peer
-//@ property C04 C06
-//@ requires !authOK && !nonceOK && !held(p.mu)
+//@ property C04 C06 C09
+//@ requires !authOK && !nonceOK && !held(p.mu) && registryInv(p)
+//@ ensures [inv] {C09} registryInv(p)
 //@ ensures [authorised] effects != old(effects) ==> authorised("vipnode_peer", nodeID, nonce) && verifiedPeer(authArgs, req)
 //@ ensures [refused-error]    !(authOK && nonceOK) ==> typeis(err, VerifyFailedError)
 //@ ensures [refused-no-trace] !(authOK && nonceOK) ==> effects == old(effects) && p.Store.nonce == old(p.Store.nonce)
 
+// configuration hooks of the pool (function-valued fields): assumed to report ordinary errors only and to leave the
+// pool's state alone
+//@ funcfield VipnodePool.BlockNumberProvider(network) (result, err)
+//@ ensures [errkind] plainError(err)
+//@ modifies nothing
+
+//@ funcfield VipnodePool.ClientMessager(nodeID) (result)
+//@ modifies nothing
+
 //@ func (*VipnodePool).Update
-//@ property C02 C04 C06
+//@ property C02 C03 C04 C06 C09
 //@ callreq Manager.OnUpdate [bills-previous-record] {C02} : arg0 == old(p.Store.node[store.NodeID(nodeID)])
 //@ callreq Manager.OnUpdate [bills-tracked-peers] {C02 C11} : arg1 == active
 //@ callreq disconnectPeers [cuts-off-tracked-peers] {C03} : arg1 == nodeID && arg2 == active
-//@ requires !authOK && !nonceOK && !held(p.mu)
+//@ requires !authOK && !nonceOK && !held(p.mu) && registryInv(p)
+//@ ensures [inv] {C09} registryInv(p)
+//@ ensures [cut-off-asks-the-hosts] {C03} typeis(err, balance.LowBalanceError) ==> callcount("disconnectPeers") == 1
+//@        && callarg("disconnectPeers", 2)[0] == nodeID && callarg("disconnectPeers", 3)[0] == store.lastNodePeers
+//@ ensures [nobody-else-is-cut-off] {C03} !typeis(err, balance.LowBalanceError) ==> callcount("disconnectPeers") == 0
 //@ ensures [authorised] effects != old(effects) ==> authorised("vipnode_update", nodeID, nonce) && verifiedUpdate(authArgs, req)
 //@ ensures [refused-error]    !(authOK && nonceOK) ==> typeis(err, VerifyFailedError)
 //@ ensures [refused-no-trace] !(authOK && nonceOK) ==> effects == old(effects) && p.Store.nonce == old(p.Store.nonce)
@@ -111,9 +217,23 @@ package pool
 //@ ensures [count]    result == len(p.remoteHosts)
 //@ ensures [unlocked] !held(p.mu)
 
+// ---- C19: the advertised address ------------------------------------------------------------
+// suppliedHost/suppliedPort: what the host's own node URI says, "" when it says nothing usable
+//@ pure suppliedHost(uri string) string = ite(uri != "" && hostnameOf(parsedHost(uri)) != "::", hostnameOf(parsedHost(uri)), "")
+//@ pure suppliedPort(uri string) string = ite(uri != "", portOf(parsedHost(uri)), "")
+//@ pure wantHost(uri string, def string) string = ite(suppliedHost(uri) != "", suppliedHost(uri), def)
+//@ pure wantPort(uri string, def string) string = ite(suppliedPort(uri) != "", suppliedPort(uri), def)
+
 //@ func normalizeNodeURI
-//@ property C19
+//@ property C15 C19
+//@ safety on
 //@ ensures [errkind] !typeis(err, VerifyFailedError) && !typeis(err, balance.LowBalanceError)
+//@ ensures [own-identity]   {C19} err == nil ==> uriScheme(result) == "enode" && uriUser(result) == nodeID
+//@ ensures [dialable]       {C19} err == nil ==> splitOK(uriHost(result)) && splitHost(uriHost(result)) == wantHost(nodeURI, defaultHost)
+//@                                   && splitPort(uriHost(result)) == wantPort(nodeURI, defaultPort)
+//@ ensures [host-known]     {C19} err == nil ==> wantHost(nodeURI, defaultHost) != ""
+//@ ensures [other-identity-refused] {C19} err == nil && nodeURI != "" ==> parsedUser(nodeURI) == "" || parsedUser(nodeURI) == nodeID
+//@ ensures [error-means-nothing]    {C19} err != nil ==> result == ""
 //@ modifies nothing
 
 // ---- the Pool interface as seen by agents: every call is counted (ghost) -----------------
